@@ -75,8 +75,8 @@ func walkCmds() {
 						present = true
 					}
 				}
-				if f.Name == "seed" {
-					continue // --seed is always given by the harness (its documented default is the clock)
+				if f.Name == "seed" && t.Seeded {
+					continue // --seed is always given by the harness to commands that draw random numbers (its documented default is the clock)
 				}
 				if t.Stdin != "" && f.DefValue == "stdin" {
 					// this is exactly the option whose default the template relies on: toggled below like any other
@@ -213,7 +213,7 @@ func runC19(c *Ctx, idx int, o *Obs) {
 	// odd input families: ANOTHER numeric option of the command is moved away from its default in both runs (twice
 	// the default, or 1), so that a default that silently follows another option shows
 	var other []string
-	if fam%2 == 1 {
+	if fam%2 == 1 && p.flag != "seed" { // with --seed under test no other option is moved (it could make the command draw random numbers)
 		var words []string
 		for _, a := range p.tmpl.Args {
 			if strings.HasPrefix(a, "-") || strings.HasPrefix(a, "{") {
@@ -252,8 +252,21 @@ func runC19(c *Ctx, idx int, o *Obs) {
 			}
 		}
 	}
+	if p.flag == "seed" {
+		// a command that draws no random number: the documented default of --seed (-1, the clock) changes nothing,
+		// and the harness does not add a seed of its own
+		seed = nil
+	}
 	a = runTmpl(c, p.tmpl, in, append(append([]string{}, other...), seed...), "a")
+	if gcmd.RootCmd.PersistentFlags().Lookup(p.flag) != nil && fam%2 == 1 {
+		// a global option may be given before the sub-command
+		tmplPrefix = given
+		given = nil
+		what += " (given before the sub-command)"
+		o.Ev("global_option_before_subcommand", 1)
+	}
 	b := runTmpl(c, p.tmpl, in, append(append(append([]string{}, other...), given...), seed...), "a")
+	tmplPrefix = nil
 	o.Ev("differential_runs", 2)
 	if a.res.TimedOut || b.res.TimedOut {
 		o.Inconclusive = what + ": wall-clock watchdog"
